@@ -14,9 +14,9 @@ pub mod m0_ren1 {
       relation foo(i64, i64, i64);
       relation bar(i64, i64, i64);
       relation baz(i64, i64);
-      node(b, a, b) <-- if let Some(a) = Some(4), path(b, c);
-      foo(a, (a + 1), a) <-- let a = 2, path(b, a) if ((*b) < 1), if (a < 6);
-      bar(a, b, (a + 1)) <-- if let Some(a) = None::<i64>, node(a, (a + 0), a), foo(b, a, a), if (a < 6);
+      node(b, a, b) <-- if let Some(a) = Some(4), path(b, c), if (a <= 6);
+      foo(a, (a + 1), a) <-- let a = 2, path(b, a) if ((*b) < 1), if (a <= 6), if (a < 6);
+      bar(a, b, (a + 1)) <-- if let Some(a) = None::<i64>, node(a, (a + 0), a), foo(b, a, a), if (a <= 6), if (a < 6);
       node(a, k, m) <-- if let Some(m) = Some(2), path(a, b), baz(b, m) let k = ((*a) + 1);
       foo(a, b, c) <-- baz(a, b) if ((*a) < 4), path(b, c) if ((*c) != (*b));
       baz((a + 1), a) <-- for a in [3, 4], if (a < 6);
@@ -62,10 +62,10 @@ pub mod m2_perm1 {
       relation r3(i64, i64);
       relation r5(i64, i64);
       relation r4(i64, i64);
-      r2(v2) <-- r0(0, v0) if ((*v0) <= 6) let v1 = ((*v0) + 0), let v2 = 1;
+      r2(v2) <-- r0(0, v0) if ((*v0) <= 6) let v1 = ((*v0) + 0), let v2 = 1, if (v2 <= 6);
       r5(((*v0) + 1), v0) <-- r5(v0, v1), if ((*v0) < 6);
       r2(3) <-- r3(v0, v1);
-      r3(v0, v2) <-- r3(0, 0), r4(0, v0) if ((*v0) <= 3), r3(((*v0) + 0), v1), if let Some(v2) = Some(((*v0) + 0));
+      r3(v0, v2) <-- r3(0, 0), r4(0, v0) if ((*v0) <= 3), r3(((*v0) + 0), v1), if let Some(v2) = Some(((*v0) + 0)), if (v2 <= 6);
       r2(v0) <-- r5(v0, v1), r5(v0, v0), r5(v1, v2);
       r4(v2, v1) <-- r2(v1) if ((*v1) < 5), r1(v2) if ((*v2) != 3), if let Some(v0) = Some(0);
       r4(v0, v1) <-- r0(v0, v1), r3(v0, v0), r0(v1, v2);
@@ -110,10 +110,10 @@ pub mod m4 {
       relation r1(i64);
       relation r2(i64, i64, i64);
       relation r3(i64, i64, i64);
-      r3(v0, 0, 0) <-- if let Some(v0) = Some(3), r1(v0) if (v0 <= 2);
-      r3(v0, v2, v2) <-- if let Some(v0) = Some(4), r3(v1, v0, v2), r1(((*v1) + 1));
+      r3(v0, 0, 0) <-- if let Some(v0) = Some(3), r1(v0) if (v0 <= 2), if (v0 <= 6);
+      r3(v0, v2, v2) <-- if let Some(v0) = Some(4), r3(v1, v0, v2), r1(((*v1) + 1)), if (v0 <= 6);
       r2(v0, v1, v2) <-- r0(v0, v1) if ((*v0) < 5), r0(v1, v2) if ((*v2) != (*v1));
-      r2(v0, v0, v0) <-- r1(3), let v0 = 3;
+      r2(v0, v0, v0) <-- r1(3), let v0 = 3, if (v0 <= 6);
    }
    pub struct Inst { p: Prog, pool: Option<ascent::rayon::ThreadPool> }
    pub fn make(pool: Option<usize>) -> Box<dyn Driver> {
@@ -366,7 +366,7 @@ pub mod m11_ren0 {
       relation rel1_(i64, i64);
       relation rel2_(i64, i64);
       rel2_(x0_, x1_) <-- rel2_(x0_, x1_), rel0_(x0_, x0_), rel2_(x1_, x2_);
-      rel2_(1, x0_) <-- if let Some(x0_) = Some(3), rel1_(x0_, x1_), rel0_(x0_, x0_), for x2_ in 0..4;
+      rel2_(1, x0_) <-- if let Some(x0_) = Some(3), rel1_(x0_, x1_), rel0_(x0_, x0_), for x2_ in 0..4, if (x0_ <= 6);
    }
    pub struct Inst { p: Prog, pool: Option<ascent::rayon::ThreadPool> }
    pub fn make(pool: Option<usize>) -> Box<dyn Driver> {
